@@ -75,6 +75,12 @@ impl InstructionProperties for CfgNode {
         self.node().writes_to()
     }
 
+    #[cfg(rva_verif)]
+    fn reads_from(&self) -> crate::verif_collections::HashSet<RegisterToken> {
+        self.node().reads_from()
+    }
+
+    #[cfg(not(rva_verif))]
     fn reads_from(&self) -> std::collections::HashSet<RegisterToken> {
         self.node().reads_from()
     }
